@@ -11,7 +11,7 @@ import signal
 import sys
 import threading
 import time
-from typing import Any
+from typing import Any, ClassVar
 
 from frozendict import frozendict
 
@@ -201,8 +201,8 @@ def _fields():
 DECLARED_MAX_PARALLEL: dict = {}     # what the decorator call declares - NOT read back from labtech
 
 
-def _node_type(tname: str, *, max_parallel=None, cache=labtech.tasks.CACHE_DEFAULT, extra_ns=None, bases=()):
-    ns = {'__annotations__': _fields(), 'run': node_run, '__module__': MODULE, '__qualname__': tname,
+def _node_type(tname: str, *, max_parallel=None, cache=labtech.tasks.CACHE_DEFAULT, extra_ns=None, bases=(), extra_annotations=None):
+    ns = {'__annotations__': {**(extra_annotations or {}), **_fields()}, 'run': node_run, '__module__': MODULE, '__qualname__': tname,
           'read': True}
     if extra_ns:
         ns.update(extra_ns)
@@ -280,7 +280,11 @@ class CtxMixin:
 CtxSubMix = _node_type('CtxSubMix', bases=(CtxMixin,))
 CtxSubKid = _node_type('CtxSubKid', max_parallel=1, bases=(CtxSub2,))
 
-NODE_TYPES = {c.__name__: c for c in (N1, N2, N3, NN, N, NX, Z, Z1, Z2, J, P2, T, CtxSub, CtxSub2, CtxWrap, CtxSubMix, CtxSubKid)}
+# a task type carrying a class-level constant (typing.ClassVar) whose value is a task: not a parameter, not a dependency
+NCV = _node_type('NCV', extra_ns={'BASELINE': NN(name='stray-classvar-task', deps=None, mode='ok', payload=None, read=True)},
+                 extra_annotations={'BASELINE': ClassVar[Any]})
+
+NODE_TYPES = {c.__name__: c for c in (N1, N2, N3, NN, N, NX, Z, Z1, Z2, J, P2, T, CtxSub, CtxSub2, CtxWrap, CtxSubMix, CtxSubKid, NCV)}
 CACHEABLE = {k for k, c in NODE_TYPES.items() if not isinstance(c._lt.cache, labtech.cache.NullCache)}
 MAX_PARALLEL = {k: DECLARED_MAX_PARALLEL[k] for k in NODE_TYPES}
 
